@@ -102,7 +102,9 @@ Print Assumptions c12_template_embedded.
    open (unterminated: parentheses inside text literals do not count, a literal still open at the end swallows the
    rest).  Nothing is evaluated, no error is collected, and the WHOLE input is body text: the output is
    unescape_at b1, "@(", unescape_at e.  No condition on what follows an '@' inside e: after the unterminated "@("
-   nothing starts an expression any more.  Witness: template_unterminated_witness. *)
+   nothing starts an expression any more.  Witness: template_unterminated_witness.
+   The part about '@@' is sentence 1; that no later expression starts is what scanExpression does (it reads to the end of the
+   input) - the property is silent on it, it is recorded here as the behaviour of the code, not as a requirement. *)
 Theorem c12_body_after_unterminated : forall isln lower (eval_expr : ExScanner.text -> option ExScanner.text) tops b1 e,
   isln 0 = false -> isln r_dot = false -> isln r_at = false ->
   nulfree b1 -> nulfree e ->
@@ -168,10 +170,10 @@ Proof. exact scanner_lexer_agree_printed_stmt. Qed.
 Print Assumptions c12_scanner_lexer_agree_printed.
 
 (* Sentence 3 as the property words it - for EVERY expression - is false (F10b; the inputs of the two known: lines
-   scanner-lexer-agree / scanner-parser-agree:literal-ends-in-backslash-before-later-quote): (a) the scanner ends the
-   expression  "a\\" & ")"  where the parser cannot (syntax error on exactly the text the scanner cut out); (b) the parser
-   takes  "a\\" & "  for one text literal where the scanner finds no end at all.  What holds is c12_literal_one_token
-   and c12_scanner_lexer_agree_printed above. *)
+   scanner-lexer-agree / scanner-parser-agree:literal-ends-in-backslash-before-later-quote).  Write Q for a quote
+   character.  (a) The scanner ends the expression  Qa\\Q & Q)Q  where the parser cannot (syntax error on exactly the
+   text the scanner cut out); (b) the parser takes  Qa\\Q & Q  for one text literal where the scanner finds no end at
+   all.  What holds is c12_literal_one_token and c12_scanner_lexer_agree_printed above. *)
 Theorem c12_scanner_parser_agree_refuted :
   (exists e, closed_expr e /\ exists ts, lex e = LOk ts /\ parse_tokens ts = PSyntax)
   /\ (exists e v, unterminated e /\ lex e = LOk [tok TEXT e] /\ parse_tokens [tok TEXT e] = POk (EText v)).
